@@ -93,7 +93,7 @@ def _raw_cast(x, y, n_bits):
     """
     mixed = np.asarray(x.val).dtype != np.asarray(y.val).dtype
     if n_bits >= _n_word_max or (mixed and n_bits > 53):
-        return lambda m: np.array(m, dtype=object)
+        return lambda m: np.asarray(m).astype(object)   # (np.array(np.int64(..), dtype=object) would keep the NumPy scalar)
     return lambda m: m
 
 def _function_over_one_var(repr_func, raw_func, x, out=None, out_like=None, sizing='optimal', method='raw', optimal_size=None, **kwargs):
